@@ -49,7 +49,11 @@ C02V(r) ==
     <<"strictly-increasing", \A k \in 1..(Len(ob) - 1) : ob[k].t < ob[k+1].t>>,
     \* (long tracks are judged in windows: p is the position in the whole observed list, pmin the last position of earlier windows)
     <<"strictly-increasing-across-windows", \A k \in DOMAIN ob : ob[k].p > r.pmin /\ (k > 1 => ob[k-1].p < ob[k].p)>>,
-    <<"lanes-as-written",    \A k \in DOMAIN ob : ob[k].t \in TicksOf(nl) => LaneSet(ob[k]) = LanesAt(nl, ob[k].t)>>
+    <<"lanes-as-written",    \A k \in DOMAIN ob : ob[k].t \in TicksOf(nl) => LaneSet(ob[k]) = LanesAt(nl, ob[k].t)>>,
+    \* (r.again: tick and lanes of the track's note list read a second time, after the track's derived attributes, a rate
+    \*  query and the rendering have been read)
+    <<"same-events-in-the-same-order-when-read-again",
+        Len(r.again) = Len(ob) /\ \A k \in DOMAIN ob : r.again[k].t = ob[k].t /\ r.again[k].lanes = ob[k].lanes>>
   >>)
 
 (***************************** C03 *****************************************)
@@ -450,7 +454,12 @@ C08V(r) ==
 \* its twin before and after the operation, the twin equality both ways, str/repr digests
 C19V(r) ==
   IF r.kind = "assign" THEN
-    FirstFail(<< <<"attribute-assignment-rejected", r.rejected>>,
+    \* (every event and track object of the chart was offered an assignment to each declared field, to each public
+    \*  derived attribute and to one attribute name its class does not know; r.acc_* = some such assignment was accepted)
+    FirstFail(<< <<"assignment-to-a-declared-field-rejected", ~r.acc_field>>,
+                 <<"assignment-to-a-derived-public-attribute-rejected", ~r.acc_derived>>,
+                 <<"assignment-of-an-unknown-attribute-rejected", ~r.acc_new>>,
+                 <<"attribute-assignment-rejected", r.rejected>>,
                  <<"observation-unchanged", r.after = r.before>> >>)
   ELSE FirstFail(<<
     <<"observation-unchanged", r.after = r.before>>,
